@@ -7,7 +7,7 @@ out=seeded/MATRIX.txt; [ $# -eq 0 ] && : > $out
 for id in $ids; do
   p=$(python3 -c "import json;print(json.load(open('seeded/$id/meta.json'))['property'])")
   extra=$(python3 -c "import json;print(' '.join(json.load(open('seeded/$id/meta.json')).get('also_check',[])))")
-  r=$(tools/try_mutant_scratch.sh seeded/$id/patch.diff $p $extra 2>&1 | grep -E '^(CAUGHT|MISSED|ERROR)' | cut -c1-200 | tr '\n' ';')
+  r=$(tools/try_mutant_scratch.sh /verif/seeded/$id/patch.diff $p $extra 2>&1 | grep -E '^(CAUGHT|MISSED|ERROR)' | cut -c1-200 | tr '\n' ';')
   echo "$id: $r" | tee -a $out
 done
 rm -rf /var/tmp/altsim-mut/replays
